@@ -103,6 +103,75 @@ def split_eq(t):
     return t[:star], t[star + 1:eq], rhs
 
 
+def _lc_map(toks, p):
+    """tokens `c1 v1 c2 v2 ...` or Sig objects -> {wire name: concrete coefficient mod p}, None when not concrete"""
+    out = {}
+    i = 0
+    try:
+        while i < len(toks):
+            t = toks[i]
+            if hasattr(t, "sig"):
+                for cf, nm in t.sig:
+                    out[str(nm)] = (out.get(str(nm), 0) + int(cf)) % p
+                i += 1
+            else:
+                out[str(toks[i + 1])] = (out.get(str(toks[i + 1]), 0) + int(toks[i])) % p
+                i += 2
+    except Exception:  # noqa
+        return None
+    return {k: v for k, v in out.items() if v}
+
+
+def _linear_rows(eqs, ctx, p):
+    """The LINEAR equations of one function context as rows {wire: coefficient}: A * B = C with a constant factor
+    (only the context's constant-one wire) is the linear relation k*B - C = 0."""
+    rows = []
+    one = ctx + "/one"
+    for t in eqs:
+        try:
+            A, B, C = (_lc_map(x, p) for x in split_eq(t))
+        except Exception:  # noqa
+            continue
+        if A is None or B is None or C is None:
+            continue
+        names = set(A) | set(B) | set(C)
+        if not names or not all(n.startswith(ctx + "/") for n in names):
+            continue
+        for X, Y in ((A, B), (B, A)):
+            if set(X) <= {one}:
+                k = X.get(one, 0)
+                row = {n: (k * v) % p for n, v in Y.items()}
+                for n, v in C.items():
+                    row[n] = (row.get(n, 0) - v) % p
+                rows.append({n: v for n, v in row.items() if v})
+                break
+    return rows
+
+
+def _in_row_space(rows, target, p):
+    """is the linear form `target` a combination mod p of `rows`?  (Gaussian elimination over GF(p))"""
+    basis = []          # (pivot name, row)
+    def reduce(v):
+        v = dict(v)
+        for piv, r in basis:
+            if v.get(piv):
+                f = v[piv]
+                for n, x in r.items():
+                    v[n] = (v.get(n, 0) - f * x) % p
+                v = {n: x for n, x in v.items() if x}
+        return v
+    for r in rows:
+        r = reduce(r)
+        if r:
+            piv = sorted(r)[0]
+            inv = pow(r[piv], -1, p)
+            r = {n: (x * inv) % p for n, x in r.items()}
+            # keep the basis reduced
+            basis = [(q, {n: x for n, x in ((n, (br.get(n, 0) - br.get(piv, 0) * r.get(n, 0)) % p) for n in set(br) | set(r)) if x}) for q, br in basis]
+            basis.append((piv, r))
+    return not reduce({n: v % p for n, v in target.items() if v % p})
+
+
 class _Qap(_Backend):
     # working state of the writer (wire and call counters) and of the splitter (its parse state)
     assigns = ("pysnark.qaptools.backend:vc_ctr", "pysnark.qaptools.backend:vc_ioctr", "pysnark.qaptools.backend:vc_ctx",
@@ -160,6 +229,13 @@ class _Qap(_Backend):
         src, bind = self.PROGRAMS[cfg["program"]]
         binds = {k: v(c) for k, v in bind.items()}
         binds.update(PrivVal=rt.PrivVal, PubVal=rt.PubVal, subqap=be.subqap, backend=be, LinComb=rt.LinComb)
+        self._notes = []
+
+        def note(side, call, pos, expr):
+            """the client program names the value it passes to (side 'caller') / returns from (side 'callee') the
+            call-th sub-circuit call at position pos of the paired blocks"""
+            self._notes.append((side, call, pos, [(int(cf), str(nm)) for cf, nm in expr.lc.sig]))
+        binds.update(note=note)
         self._binds = binds
         return c.client(src, **binds), (), {}
 
@@ -296,11 +372,13 @@ def prog():
         "no_arguments_two_results": ("""
 def prog():
     @subqap("gen")
-    def gen():
+    def gen(k):
         s = PrivVal(a)
-        return s * s, s + 1
-    u, v = gen()
-    w, z = gen()
+        q = s + 1
+        note("callee", k, 1, q)
+        return s * s, q
+    u, v = gen(0)
+    w, z = gen(1)
     out = (u * v + w - z).val()
     backend.prove()
     return out
@@ -328,7 +406,8 @@ def prog():
     x = PrivVal(a)
     y = sq(x)
     imp = backend.importcomm("ext")
-    z = sq(imp[0] + y)
+    imp2 = backend.importcomm("ext")
+    z = sq(imp[0] + imp2[1] + y)
     out = z.val()
     backend.prove()
     return out
@@ -339,10 +418,29 @@ def prog():
     def sc(v):
         return v * v
     x = PrivVal(a)
-    y = sc(2 * x)
-    z = sc(-y)
-    z = sc(0 * x + z)
+    t0 = 2 * x
+    note("caller", 0, 0, t0)
+    y = sc(t0)
+    t1 = -y
+    note("caller", 1, 0, t1)
+    z = sc(t1)
+    t2 = 0 * x + z
+    note("caller", 2, 0, t2)
+    z = sc(t2)
     out = z.val()
+    backend.prove()
+    return out
+""", {"a": lambda c: SymInt(z3.Int("s_a"))}),
+        # the LAST traced statement is a sub-circuit call: its blocks and its [glue] line must be on disk at proving time
+        "call_is_last_statement": ("""
+def prog():
+    @subqap("sq")
+    def sq(v):
+        return v * v
+    x = PrivVal(a)
+    out = (x + 1).val()
+    y = sq(x)
+    z = sq(y)
     backend.prove()
     return out
 """, {"a": lambda c: SymInt(z3.Int("s_a"))}),
@@ -369,7 +467,7 @@ def prog():
 
     # per program: sub-circuit function -> (secret arguments, secret results, calls)
     FUNCS = {"square_twice": {"sq": (1, 1, 2)}, "inconsistent_calls": {"chk": (1, 1, 2)},
-             "no_arguments_two_results": {"gen": (0, 2, 2)}, "scaled_and_constant_arguments": {"sc": (1, 1, 3)}, "import_after_call": {"sq": (1, 1, 2)}, "plain_and_secret_arguments": {"mix": (2, 1, 2)}}
+             "no_arguments_two_results": {"gen": (0, 2, 2)}, "scaled_and_constant_arguments": {"sc": (1, 1, 3)}, "import_after_call": {"sq": (1, 1, 2)}, "call_is_last_statement": {"sq": (1, 1, 2)}, "plain_and_secret_arguments": {"mix": (2, 1, 2)}}
 
     def extra(self, c, r, wires, io, eqs, directives):
         p = self.prime
@@ -392,6 +490,15 @@ def prog():
                 d["V.glue[%d].lists_argument_and_result" % gi] = na is not None and len(b1) == na + nr
                 d["V.glue[%d].pairwise_equal_values" % gi] = And(*[modeq(term(wires[u]), term(wires[v]), p) for u, v in zip(b1, b2)]) \
                     if all(u in wires and v in wires for u, v in zip(b1, b2)) else False
+                # a block wire that is not the passed value's own wire is tied to it by the context's linear equations
+                for side, call, pos, sig in self._notes:
+                    if call != gi or pos >= len(b1):
+                        continue
+                    ctx, wname = (t[1], b1[pos]) if side == "caller" else (t[3], b2[pos])
+                    target = {str(wname): 1}
+                    for cf, nm in sig:
+                        target[nm] = (target.get(nm, 0) - cf) % p
+                    d["V.glue[%d].%s_wire_%d_tied_to_passed_value" % (gi, side, pos)] = _in_row_space(_linear_rows(eqs, str(ctx), p), target, p)
                 r1 = wires.get(t[1] + "/rnd1_" + t[2])
                 r2 = wires.get(t[3] + "/rnd1_" + t[4])
                 d["V.glue[%d].same_block_randomness" % gi] = r1 is not None and r1 == r2
